@@ -23,6 +23,8 @@ pub struct Cfg {
     pub fsync: FsyncPolicy,
     pub crash: bool,
     pub torn: bool,
+    /// enumerate power-loss states too (only meaningful with fsync=always)
+    pub ploss: bool,
 }
 
 pub struct World {
@@ -39,6 +41,9 @@ pub struct World {
     pub bk: crate::backupeng::Bk,
     pub wall: bool,
     pub fault_armed: bool,
+    pub pl: PowerLoss,
+    /// power-loss outcomes of the last consumed op (distinct from the kill outcome at the same point)
+    pub ploss: Vec<String>,
 }
 
 fn is_wal(p: &str) -> bool {
@@ -46,6 +51,133 @@ fn is_wal(p: &str) -> bool {
 }
 fn is_snap(p: &str) -> bool {
     p.starts_with("snapshot_") && p.ends_with(".snap")
+}
+
+/// Power-loss model (C01, second failure model): per file the content as of its last fsync, the
+/// directory as of the last directory fsync, and the directory changes made since (which may be
+/// lost as a suffix, in order).
+#[derive(Clone, Default)]
+pub struct PowerLoss {
+    ids: BTreeMap<String, usize>,      // volatile namespace: name -> file
+    vol: Vec<Vec<u8>>,                 // volatile content per file
+    syn: Vec<Vec<u8>>,                 // content as of the file's last fsync / fdatasync
+    dur: BTreeMap<String, usize>,      // durable namespace
+    pending: Vec<DirOp>,               // directory changes since the last directory fsync
+}
+
+#[derive(Clone)]
+enum DirOp {
+    Create(String, usize),
+    Rename(String, String),
+    Unlink(String),
+}
+
+impl PowerLoss {
+    pub fn from_shadow(shadow: &BTreeMap<String, Vec<u8>>) -> Self {
+        let mut p = PowerLoss::default();
+        for (n, d) in shadow {
+            p.ids.insert(n.clone(), p.vol.len());
+            p.dur.insert(n.clone(), p.vol.len());
+            p.vol.push(d.clone());
+            p.syn.push(d.clone());
+        }
+        p
+    }
+
+    fn file(&mut self, path: &str) -> usize {
+        if let Some(i) = self.ids.get(path) {
+            return *i;
+        }
+        let i = self.vol.len();
+        self.vol.push(vec![]);
+        self.syn.push(vec![]);
+        self.ids.insert(path.to_string(), i);
+        self.pending.push(DirOp::Create(path.to_string(), i));
+        i
+    }
+
+    pub fn apply(&mut self, e: &Effect) {
+        match e {
+            Effect::Open { path, create, trunc } => {
+                if *trunc || *create {
+                    let i = self.file(path);
+                    if *trunc {
+                        self.vol[i].clear();
+                    }
+                }
+            }
+            Effect::Write { path, offset, data } => {
+                let i = self.file(path);
+                let off = *offset as usize;
+                if self.vol[i].len() < off + data.len() {
+                    self.vol[i].resize(off + data.len(), 0);
+                }
+                self.vol[i][off..off + data.len()].copy_from_slice(data);
+            }
+            Effect::Truncate { path, len } => {
+                let i = self.file(path);
+                self.vol[i].resize(*len as usize, 0);
+            }
+            Effect::Fsync { path, .. } => {
+                if let Some(i) = self.ids.get(path).copied() {
+                    self.syn[i] = self.vol[i].clone();
+                }
+            }
+            Effect::FsyncDir => {
+                let ops = std::mem::take(&mut self.pending);
+                for op in &ops {
+                    Self::dir_apply(&mut self.dur, op);
+                }
+            }
+            Effect::Rename { from, to } => {
+                if let Some(i) = self.ids.remove(from) {
+                    self.ids.insert(to.clone(), i);
+                    self.pending.push(DirOp::Rename(from.clone(), to.clone()));
+                }
+            }
+            Effect::Unlink { path } => {
+                if self.ids.remove(path).is_some() {
+                    self.pending.push(DirOp::Unlink(path.clone()));
+                }
+            }
+        }
+    }
+
+    fn dir_apply(ns: &mut BTreeMap<String, usize>, op: &DirOp) {
+        match op {
+            DirOp::Create(n, i) => {
+                ns.insert(n.clone(), *i);
+            }
+            DirOp::Rename(a, b) => {
+                if let Some(i) = ns.remove(a) {
+                    ns.insert(b.clone(), i);
+                }
+            }
+            DirOp::Unlink(n) => {
+                ns.remove(n);
+            }
+        }
+    }
+
+    /// every directory a power failure at this instant may leave: a prefix of the pending directory
+    /// changes survives; per file either only the synced bytes or everything written
+    pub fn states(&self) -> Vec<BTreeMap<String, Vec<u8>>> {
+        let mut out: Vec<BTreeMap<String, Vec<u8>>> = vec![];
+        for k in 0..=self.pending.len() {
+            let mut ns = self.dur.clone();
+            for op in &self.pending[..k] {
+                Self::dir_apply(&mut ns, op);
+            }
+            for full in [false, true] {
+                let st: BTreeMap<String, Vec<u8>> =
+                    ns.iter().map(|(n, i)| (n.clone(), if full { self.vol[*i].clone() } else { self.syn[*i].clone() })).collect();
+                if !out.contains(&st) {
+                    out.push(st);
+                }
+            }
+        }
+        out
+    }
 }
 
 pub fn apply_effect(shadow: &mut BTreeMap<String, Vec<u8>>, e: &Effect) {
@@ -249,6 +381,7 @@ impl World {
                 None
             };
             apply_effect(&mut self.shadow, e);
+            self.pl.apply(e);
             if self.wall {
                 // the kernel stamps mtimes with the real clock: restamp with the virtual one
                 let p = match e {
@@ -387,6 +520,18 @@ impl World {
             if do_crash {
                 let sh = self.shadow.clone();
                 let o = self.recover_at(&sh);
+                if self.cfg.ploss {
+                    // power failure at the same instant: every directory it may leave
+                    for st in self.pl.states() {
+                        if st == sh {
+                            continue;
+                        }
+                        let po = self.recover_at(&st);
+                        if po != o && !self.ploss.contains(&po) {
+                            self.ploss.push(po);
+                        }
+                    }
+                }
                 crashes.push(format!("{}:{}", acts.len(), o));
             }
         }
@@ -399,12 +544,15 @@ impl World {
     }
 
     fn finish(&mut self, out: String) -> String {
+        self.ploss.clear();
         let (acts, crashes) = self.consume(true);
+        let pl = if self.cfg.ploss { format!(" ploss={}", if self.ploss.is_empty() { "-".to_string() } else { self.ploss.join("#") }) } else { String::new() };
         format!(
-            "{} acts={} crash={}",
+            "{} acts={} crash={}{}",
             out,
             acts.join(";"),
-            crashes.join("#")
+            crashes.join("#"),
+            pl
         )
     }
 }
@@ -537,6 +685,7 @@ pub fn step(w: &mut Option<World>, line: &str, scratch_root: &Path, case_no: &mu
             fsync,
             crash: boolean(&fs, "crash").unwrap_or(false),
             torn: boolean(&fs, "torn").unwrap_or(false),
+            ploss: boolean(&fs, "ploss").unwrap_or(false),
         };
         let b = HnswBackend::with_persistence(
             cfg.dim,
@@ -561,6 +710,8 @@ pub fn step(w: &mut Option<World>, line: &str, scratch_root: &Path, case_no: &mu
             bk: Default::default(),
             wall: false,
             fault_armed: false,
+            pl: PowerLoss::default(),
+            ploss: vec![],
         };
         world.wall = wall.is_some();
         let out = match b {
